@@ -4,6 +4,7 @@ import (
 	"fmt"
 	"io"
 	"sync"
+	"time"
 )
 
 // ConnPlan describes the behaviour of one client connection in lifecycle scenarios (C10/C11/C16/C17).
@@ -37,6 +38,8 @@ type ClientRun struct {
 	Proto       string
 	Responses   []Exchange
 	Done        chan struct{} // closed when the client goroutine has ended
+	Ready       chan struct{} // closed when the client has finished its handshake and requests (or given up)
+	readyOnce   sync.Once
 	finish      chan struct{}
 	ReadClosed  bool // the client observed the server closing the connection
 	Err         string
@@ -63,7 +66,7 @@ func StartClient(p *Proxy, plan ConnPlan, hooks *Hooks, tag string) (*ClientRun,
 	if err != nil {
 		return nil, err
 	}
-	r := &ClientRun{Plan: plan, Raw: raw, Server: srv, Done: make(chan struct{}), finish: make(chan struct{})}
+	r := &ClientRun{Plan: plan, Raw: raw, Server: srv, Done: make(chan struct{}), Ready: make(chan struct{}), finish: make(chan struct{})}
 	if plan.Limit >= 0 && plan.LimitMode != "" {
 		raw.LimitOut(plan.Limit, plan.LimitMode)
 	}
@@ -71,8 +74,28 @@ func StartClient(p *Proxy, plan ConnPlan, hooks *Hooks, tag string) (*ClientRun,
 	return r, nil
 }
 
+func (r *ClientRun) markReady() { r.readyOnce.Do(func() { close(r.Ready) }) }
+
+// AwaitReady blocks until the client has completed its handshake and requests, has given up, or (for
+// clients that stall by design) the fake-time budget is used up. Blocking lets the fake clock advance,
+// which quiescence alone does not (the test backend answers after a delay).
+func (r *ClientRun) AwaitReady() {
+	if r.Plan.LimitMode == "stall" || r.Plan.Kind == "silent" {
+		Wait()
+		return
+	}
+	t := time.NewTimer(200 * time.Millisecond)
+	defer t.Stop()
+	select {
+	case <-r.Ready:
+	case <-t.C:
+	}
+	Wait()
+}
+
 func (r *ClientRun) run(tag string) {
 	defer close(r.Done)
+	defer r.markReady()
 	switch r.Plan.Kind {
 	case "silent":
 		<-r.finish
@@ -156,6 +179,7 @@ func (r *ClientRun) run(tag string) {
 				cc.H2.AwaitResponse(sid, r.finish)
 			}
 		}
+		r.markReady()
 		<-r.finish
 		c.Conn.Close()
 	}
